@@ -523,6 +523,17 @@ func (e *Engine) jump(st *State, to *ssa.BasicBlock) {
 	fr.prev = fr.blk
 	fr.blk = to
 	fr.pc = 0
+	if len(e.cutLines) > 0 && fr.caller != nil {
+		for _, in := range to.Instrs {
+			if p := in.Pos(); p.IsValid() {
+				pp := e.fset.Position(p)
+				if e.cutLines[fmt.Sprintf("%s:%d", pp.Filename, pp.Line)] {
+					e.doReturn(st, zeroResults(fr.fn))
+					return
+				}
+			}
+		}
+	}
 }
 
 func (e *Engine) ifInstr(st *State, x *ssa.If) bool {
